@@ -5,6 +5,26 @@ ROOT = os.path.dirname(os.path.dirname(os.path.abspath(__file__)))
 
 CHECKS = {
  # id: (technique, level text, level note, design_ref)
+ "C01": ("generated well-typed programs (proptest byte streams -> type-directed generator) x boundary/random inputs; differential against a reference interpreter; plus the exhaustive operator grid with the value oracle",
+         "Exploration: tens of thousands of generated programs per run over all 8 integer types, floats, bool, char, every operator, blocks, if/match/while/for, early return and (mutually) recursive functions, each on up to 6 input vectors; return value and host-call log compared with the reference interpreter.",
+         "Trusts harness/src/model.rs as the statement of the language semantics; program size bounded; trapping inputs (C10-F1/F2) are not executed.",
+         "DESIGN.md §4 C01"),
+ "C02": ("generated programs with records/enums/options/lists/strings/host types; copy-then-mutate statements; differential against a reference interpreter with value semantics for aggregates and shared lists",
+         "Exploration: generated type declarations (generic, nested, every field size class incl. zero-sized and odd-sized host types) and programs that copy, mutate, compare, match and return them; outputs compared with the reference interpreter.",
+         "Trusts the reference interpreter; nesting depth <= 3, <= 6 fields; all-zero-sized records excluded while C02-F3 is open.",
+         "DESIGN.md §4 C02"),
+ "C03": ("generated programs with owning values in every position; invariants over each call: tracked live-set unchanged, no double drop / drop of garbage / use after drop, zero net heap bytes (counting allocator)",
+         "Exploration: ownership-heavy generated programs run on inputs that steer every branch; after each call the drop-tracked host types and the per-thread allocation counter must balance.",
+         "Balance is checked per call, not per statement; zero-sized clone type excluded while C03-F3 is open; harness global allocator wrapper trusted.",
+         "DESIGN.md §4 C03"),
+ "C08": ("generated programs with uniquely tagged effect markers at every expression position; ordered host-call log compared with the reference interpreter",
+         "Exploration: the ordered sequence of (marker, arguments) host calls of each generated program equals the sequence obtained by left-to-right, short-circuit, guard-order evaluation in the reference interpreter.",
+         "Trusts the reference interpreter's evaluation order, written from the property statement.",
+         "DESIGN.md §4 C08"),
+ "C20": ("generated non-recursive programs; differential between the LIR evaluator (hook verif_eval) and the JIT code built from the same lowered IR; evaluator panics accepted as 'stops loudly'",
+         "Exploration / differential: evaluator and compiled code start from the same lowered IR; whenever the evaluator completes, return value and host-call log must match the compiled code.",
+         "About half of the generated programs make the evaluator stop loudly (unsupported features); reported in evidence classes.",
+         "DESIGN.md §4 C20"),
  "C10": ("exhaustive operator/type/boundary-operand grid + random operands (proptest) in crash-isolated worker processes; survival oracle",
          "Exploration: every arithmetic/comparison/compound operator on all 10 numeric types over all pairs of a 15-value boundary set (exhaustive) plus random pairs, each executed in a worker process whose death by signal/abort is the failure signal.",
          "Trusts the driver's classification of worker exit status; operands outside the boundary set are only sampled.",
